@@ -41,7 +41,7 @@ impl<'a> Runner<'a> {
         }
         let mut lock = Lock::new(Some(0));
         lock.full_every = 4096;
-        Runner { lock, rep, check, judge: Judge::FULL, rng, pc_pool }
+        Runner { lock, rep, check, judge: if check == "C02" { Judge::FULL.only(super::common::is_arith) } else { Judge::FULL.only(super::common::is_logic) }, rng, pc_pool }
     }
 
     /// One register-operand case: pattern + register fields + operand values + CCR.
